@@ -130,6 +130,10 @@ def run_case(case, ctx):
     # --- base call on float arrays: exact on the lattice (all costs are multiples of 1/2)
     v, nw = call_warn(ctx, persim.bottleneck, farr(S), farr(T))
     ctx.outcome(v)
+    if nw.claims_nonfinite():
+        # "dropped with a warning": the warning says that the diagram HAS points with non-finite death
+        ctx.violation("spurious-inf-warning", "warning about non-finite death times on diagrams that have none",
+                      observed=nw.messages[:2], expected="no such warning", extra={"S": S, "T": T})
     check_value(ctx, "value", v, ref, 0.0, "float arrays", S, T)
     cand = om.candidate_thresholds(S, T)
     if info["mixed"]:
